@@ -41,5 +41,20 @@ FAM = tracefam.Family(
         "TLC, CommunityModules, testing/synctest"])
 
 
+def prepare(tier, sd, d):
+    """Behaviours of the model for the spec -> implementation direction."""
+    import json
+    import os
+    import simulate
+    import vlib
+    sets = simulate.replay_sets(tier, sd, d)
+    path = os.path.join(d, "behaviours.json")
+    json.dump(sets, open(path, "w"))
+    return {"VERIF_BEHAVIOURS": path}
+
+
+FAM.prepare = prepare
+
+
 def run(prop, tier):
     tracefam.run(FAM, prop, tier)
